@@ -26,19 +26,21 @@ def runLine (line : String) : String × String :=
   | some "stream" => runStreamCase line
   | _ => ("unknown-engine", "")
 
-partial def loop (h : IO.FS.Stream) (out : IO.FS.Stream) : IO Unit := do
+partial def loop (nogen : Bool) (h : IO.FS.Stream) (out : IO.FS.Stream) : IO Unit := do
   let line ← h.getLine
   if line.isEmpty then return ()
   let line := String.ofList (line.toList.filter (fun c => c != '\n' && c != '\r'))
   if line.isEmpty || line.startsWith "#" then
-    loop h out
+    loop nogen h out
   else
     -- `big=1`: a document with so many items that only the implementation-side oracles run
     -- (the model's per-item fuel computation is quadratic there); both sides print `BIG`
+    -- `DRIVER_NO_GEN`: do not execute the code generated from the Rust source next to the hand-written model
+    let line := if nogen then line ++ " nogen=1" else line
     let (obs, tags) := if (line.splitOn " ").contains "big=1" then ("BIG", "big=1") else runLine line
     out.putStrLn s!"{obs}\t{tags}"
-    loop h out
+    loop nogen h out
 
 def main : IO Unit := do
   let out ← IO.getStdout
-  loop (← IO.getStdin) out
+  loop ((← IO.getEnv "DRIVER_NO_GEN").isSome) (← IO.getStdin) out
